@@ -178,9 +178,10 @@ def run(eng: Engine, ck: Check):
     ck.ob('R-C11-ERRMAP', fb, fb.node, 'fallback: direct first, indirect in the failure handler of the direct attempt', ok, '', construct='fallback order')
     cr = eng.cfg(race)
     final_raise = [n for n in walk_local(race.node) if isinstance(n, ast.Raise) and n.exc is not None and 'PeerConnectionError' in unparse(n.exc)]
-    implicit = [p for p, lab in cr.exit_return.pred if not isinstance(p.ast, ast.Return)]
+    implicit = cr.find_path([cr.entry], lambda n: n.kind == 'exit_return', avoid=lambda n: isinstance(n.ast, ast.Return))
     ck.ob('R-C11-ERRMAP', race, race.node, 'race: when no attempt succeeded a PeerConnectionError is raised (no implicit None return)',
-          bool(final_raise) and not implicit, f'implicit returns: {len(implicit)}', construct='race final error')
+          bool(final_raise) and implicit is None, f'path falling off the end: {cr.describe_path(implicit, race.where) if implicit else ""}',
+          construct='race final error')
     for r in res:
         t = protected_by_try_catching(eng, race, r, 'Exception', 'BaseException')
         ck.ob('R-C11-ERRMAP', race, r, 'race: a failed attempt does not abort the race (result() inside try/except Exception)', t is not None, '',
